@@ -7,6 +7,7 @@ package copy
 // DeepCopy returns a map for a map (also for a nil map) and a list for a list; it only
 // allocates.
 //@ func DeepCopy
+//@   vars i m ok out k v a ok out k v
 //@   property C06
 //@   option prelude=json
 //@   modifies MapD. MapV. MapN SH. alloc
